@@ -1,3 +1,4 @@
+(* model: c18-queue *)
 (* drv_queue.ml: runs LmqModel / MsgqModel on the op script of harness/wb_queue.c *)
 open Nngv_model
 open Conv
